@@ -122,10 +122,27 @@ func vLockRelease(rank int) {
 	for i := len(vHeldRanks) - 1; i >= 0; i-- {
 		if vHeldRanks[i] == rank {
 			vHeldRanks = append(vHeldRanks[:i], vHeldRanks[i+1:]...)
-			return
+			break
+		}
+	}
+	// one context switch (vPreemptWith): at any point where the harness goroutine has just
+	// released a lock and holds none, a second API call may run to completion before the
+	// first continues. Every such schedule is a real one (the second goroutine simply gets
+	// the processor there); the choice is part of the replay vector, so the native replay
+	// takes the same switch.
+	if vPreemptBody != nil && len(vHeldRanks) == 0 {
+		if vPick(2) == 1 {
+			f := vPreemptBody
+			vPreemptBody = nil
+			f()
 		}
 	}
 }
+
+// vPreemptWith arms one context switch to f (see vLockRelease).
+var vPreemptBody func()
+
+func vPreemptWith(f func()) { vPreemptBody = f }
 
 type vLkAssoc struct{ sync.RWMutex }
 
